@@ -12,7 +12,7 @@ CLAIM = dict(
          'recomputes the acceptance from the tuple, demands: not accepted => every form panicked, and for an out-of-range row/column/band/node/entry '
          'address the receiver is bit-for-bit unchanged after the panic; accepted => no panic (on well-formed operands: every size >= 1, band widths '
          'below the dimension), every borrowed operand bit-for-bit unchanged (FNV hash of the IEEE bit patterns and the integer values), all forms '
-         'return the same result; and the set of entry points executed equals the table key set. The same tuples are executed again (sizes 0..4, quick 0..3) on AGED receivers - built at an old size and brought to the tuple size by every size-changing operation of the type (Vector resize/pop/push/clear/insert, Matrix resize/delete_row/transpose_in_place/clear, Banded::resize, Tridiagonal::resize, Sparse insert/transpose, Polynomial push/pop/trim, Mesh1D::read with fewer/more nodes; the predicate is evaluated on the NEW size; the old state also shares SOME dimensions with the new one - same length, same rows*cols in another shape, same n and m1+m2 with another split, same widths with another n, no-op resize; indices and operand sizes cover the old and the new layout) - and every by-reference/consuming pair is executed on operand VARIANTS (negative entries, zeros, -0.0; second operand distinct / equal / all-zero / identity / the SAME object; scalars 0.0, -0.0, 1, -1, 2, 0.5), results compared by IEEE bit pattern. Ohsl.tla gives the workspace semantics '
+         'return the same result; and the set of entry points executed equals the table key set. The same tuples are executed again (sizes 0..4, quick 0..3) on AGED receivers - built at an old size and brought to the tuple size by every size-changing operation of the type (Vector resize/pop/push/clear/insert, Matrix resize/delete_row/transpose_in_place/clear, Banded::resize, Tridiagonal::resize, Sparse insert/transpose, Polynomial push/pop/trim, Mesh1D::read with fewer/more nodes; the predicate is evaluated on the NEW size; the old state also shares SOME dimensions with the new one - same length, same rows*cols in another shape, same n and m1+m2 with another split, same widths with another n, no-op resize; indices and operand sizes cover the old and the new layout) - and every by-reference/consuming pair is executed on operand VARIANTS (negative entries, zeros, -0.0; second operand distinct / equal / all-zero / identity / the SAME object; scalars 0.0, -0.0, 1, -1, 2, 0.5), results compared by IEEE bit pattern. Finally every pair is run on INEXACT operands (tenths, thirds, random significands, magnitudes 1e-8..1e8 within one operand, seeded by VERIF_SEED; f64 and Complex<f64> elements) over every accepted shape / length relation (sizes 0..6, polynomial lengths 0..9; quick 0..4 / 0..7): each result is logged as its list of 16-hex-digit bit patterns and the trace specification demands equal lists (and shapes) for all forms. Ohsl.tla gives the workspace semantics '
          '(Create, Clone, Mutate - incl. the size-changing operations - changes one object only, Observe changes nothing, Convert, Drop); TLC proves Independent over every interleaving '
          'of <= 4 mutations of a value and its clone for Vector, Polynomial, Matrix, Banded, Tridiagonal (an aliasing clone is exhibited as a '
          'counterexample), replays those interleavings on the real types, and validates 200-step random workspace sessions over all eight '
@@ -33,10 +33,11 @@ def _table_keys(out):
     return set(json.loads(m.group(1).replace('\\"', '"')))
 
 
-def _stamp(kind):
+def _stamp(kind, seed=1):
     def f(c, n):
         d = dict(c)
         d['kind'] = kind
+        d['vseed'] = seed          # the inexact operand data depend on VERIF_SEED
         d['suite'] = 'guards'
         return [d]
     return f
@@ -53,7 +54,7 @@ def check(ctx):
                label='deviation switch Deep = FALSE (clone is an alias): Independent must fail')
 
     # ---- spec -> impl: every enumerated tuple on the real entry points
-    cases = ctx.tlc_cases('MC_Guards', 'Gen_Guards_quick.cfg' if q else 'Gen_Guards.cfg', transform=_stamp('call'), name='gen_guards')
+    cases = ctx.tlc_cases('MC_Guards', 'Gen_Guards_quick.cfg' if q else 'Gen_Guards.cfg', transform=_stamp('call', ctx.seed), name='gen_guards')
     n = sum(1 for _ in open(cases))
     with open(cases, 'a') as f:
         f.write(json.dumps(dict(kind='coverage', suite='guards', cid=n + 1)) + '\n')
